@@ -9,7 +9,8 @@ RULE = ("M: PowMine (one action per stretch of code between two hook points of w
         "Cap=1 violates SendNeverBlocks. PowMineMulti: 2 (thorough 3) calls in flight that share nothing keep every per-call clause, a shared stop flag / a blocking "
         "process-wide semaphore violate them (controls). A: module PowMineInd states an inductive invariant of PowMine; Apalache discharges Init => IndInv, "
         "IndInv /\\ Next => IndInv' and IndInv => safety clauses symbolically for NW=3 (thorough 1..6), all modes at once, with witness states as vacuity control. G: TLC simulation behaviours (modes always/never, 1..3 workers, cancel at arbitrary instants) are replayed "
-        "as schedules on the real Mine of both PoW versions through blocking hooks. T: free-running executions (1..64 workers; cancel before the "
+        "as schedules on the real Mine of both PoW versions through blocking hooks. R: the repository's own tests of Mine (TestWorker_Mine, TestWorker_Cancel) run with recording hooks; "
+        "their executions are validated like any other trace, the unlogged cancellation placed by TLC. T: free-running executions (1..64 workers; cancel before the "
         "call, after a random delay, simultaneously with a find; targets from 'every lane qualifies' to unattainable; New(), New(0), New(-1); two calls on one Worker; calls on "
         "separate Workers with more workers than processors, one cancelled / one finding while the other goes on; other configured digest functions between calls). Every recorded execution is "
         "validated against PowMine by TLC (interleavings inferred, one action of look-ahead per process), incl. returned value, goroutine count "
@@ -116,7 +117,7 @@ def build(ctx, ver, race=False):
     gp = os.path.join(vlib.HARNESS, "powmine", "gen", "common_%s_test.go" % ver)
     open(gp, "w").write(src)
     return vlib.build_driver(ctx, pkg, ["powmine/gen/common_%s_test.go" % ver, "powmine/%s/adapter_test.go" % ver], race=race,
-                             name="powmine_%s%s" % (ver, "_race" if race else ""))
+                             optional=["powmine/%s/repotests_test.go" % ver], name="powmine_%s%s" % (ver, "_race" if race else ""))
 
 
 RACE_RE = re.compile(r"WARNING: DATA RACE(.*?)={18}", re.S)
@@ -196,6 +197,19 @@ def run(ctx):
         ndiv = sum(1 for t in g if t[0]["header"].get("diverged"))
         ctx.notes.append("%s: %d schedules replayed, %d left the TLC behaviour early (random select/spontaneous arrivals)" % (ver, len(g), ndiv))
         rej = validate(ctx, g, "G_" + ver)
+        # R: the repository's own tests of Mine, recorded through the same hooks (their exit status does not matter here)
+        vlib.run_driver(ctx, binp, "repotests", d + "/r.ndjson", timeout=600, allow_fail=True)
+        rt = split_traces(d + "/r.ndjson") if os.path.exists(d + "/r.ndjson") else []
+        rrej = validate(ctx, rt, "R_" + ver) if rt else []
+        ctx.notes.append("%s: %d executions of the repository's own Mine tests validated (%s)" % (ver, len(rt), ", ".join(sorted(set(t_[0]["header"]["repo_test"] for t_ in rt)))))
+        for tr, prefix in rrej:        # confirmed by recording the tests once more
+            vlib.run_driver(ctx, binp, "repotests", d + "/r2.ndjson", timeout=600, allow_fail=True)
+            if validate(ctx, split_traces(d + "/r2.ndjson"), "R2_" + ver):
+                info = describe(tr, prefix)
+                info["version"], info["op"] = ver, "powmine.repotest"
+                ctx.bad.append(dict(event=info, reason="execution of Mine (%s) inside the repository's test %s is not a behaviour of PowMine: event %s cannot be explained"
+                                    % (ver, tr[0]["header"]["repo_test"], info["next_event"])))
+            break
         # T: free running under the race detector
         rbin = build(ctx, ver, race=True)
         rr = vlib.run_driver(ctx, rbin, "record", d + "/t.ndjson", n=24 if q else 400, timeout=2400, allow_fail=True)
